@@ -15,6 +15,11 @@ import Reamber.Lemmas.TimingBeats
 import Reamber.Lemmas.Argsort
 import Reamber.Lemmas.TimingD22
 import Reamber.Lemmas.TimingClosedForm
+import Reamber.Lemmas.TimingInverse
+import Reamber.Lemmas.TimingReseat
+import Reamber.Lemmas.FindLcmMore
+import Reamber.Props.C11
+import Reamber.Drv.C11
 import Reamber.Spec.Timing
 import Reamber.Generated.Consts
 
@@ -361,6 +366,121 @@ theorem beats_run_exact (g : Array Rat) (hg : GridOK g) (t0 : Rat) (cs : List Bc
       (stableArgsort (fun a b => decide (a < b)) ts) ts (stableArgsort_sortsAscR ts) hts
     simp only [he, Bool.false_eq_true, if_false, h1, bind, Except.bind]
     exact h2 _ (stableArgsort_sortsAscFwd sn)
+
+/-! ### `TimingMap.reseat()` followed by `offsets` (composition with C11) -/
+
+theorem c10_distsOf_snd_mem : ∀ (rest : List BcSnap) (a : BcSnap) (p : Rat × BcSnap), p ∈ distsOf a rest → p.2 ∈ rest := by
+  intro rest
+  induction rest with
+  | nil => intro a p hp; simp [distsOf] at hp
+  | cons b t ih =>
+    intro a p hp
+    simp only [distsOf, List.mem_cons] at hp
+    rcases hp with rfl | hp
+    · exact List.mem_cons_self
+    · exact List.mem_cons_of_mem _ (ih b p hp)
+
+/-- **The reseated list is again in C10's domain, and `offsets` on it is the integration of the reseated list.**
+For every list in C11's `Dom` (branch 2 never fires, no tiny gap: findings D16/D16b) whose changes are well-formed
+in C10's sense (whole metronomes), every threshold ≥ 0, every valid grid `g` — with NO grid-compatibility
+hypothesis on the result: a seated list with whole metronomes is always compatible —
+`reseat` succeeds with a list `out` that is seated, well-formed, ascending, starts at (0, 0);
+`from_bpm_changes_snap(t0, out, reseat=False)` stores `tmOf t0 out`; `offsets` on that map returns `timeAt t0 out`
+in query order; and (C11 `reseat_spec`) every original change sits in `out` at its own millisecond position with
+its own bpm wherever a whole number of measures follows. -/
+theorem offsets_after_reseat (thr : Rat) (hthr : 0 ≤ thr) (g : Array Rat) (hg : GridOK g) (t0 : Rat)
+    (cs : List BcSnap) (hd : Dom thr cs) (hwf : wfChanges cs = true) (σ : List Nat) (qs : List Snap)
+    (hσ : SortsAsc σ qs) :
+    ∃ out, reseat cs thr = .ok out ∧ seatedB out = true ∧ wfChanges out = true ∧ sortedSnaps out = true ∧
+      firstAtZero out = true ∧ fromBcSnapNoReseat t0 out = .ok (tmOf t0 out) ∧
+      ((∀ q ∈ qs, queryOk out q = true) → offsetsWith g σ (tmOf t0 out) qs = .ok (qs.map (timeAt t0 out))) ∧
+      interleaveB 0 true (inPts t0 cs) (outPts t0 out) = true := by
+  obtain ⟨out, hout, hseat, hsortfix, _, hint⟩ := reseat_spec thr hthr cs hd t0 0 (le_refl _) true
+  obtain ⟨hs, hw, hf, h2, ht, hm⟩ := hd
+  cases cs with
+  | nil => simp [firstZeroB] at hf
+  | cons b0 rest =>
+    simp only [firstZeroB, Bool.and_eq_true, decide_eq_true_eq] at hf
+    obtain ⟨hA, hH, _⟩ := dom_unfold thr rest b0 hs hw h2 ht hm
+    have href := reseat_eq_ref thr hthr b0 rest hs hA hH
+    rw [hout] at href
+    have hout_eq : out = seatFromD thr 0 b0 (distsOf b0 rest) := Except.ok.inj href
+    obtain ⟨h, t, hseq, hhm, hhb, _, hsorted, _, _, _⟩ :=
+      seatFromD_spec thr hthr 0 (le_refl _) true (distsOf b0 rest) 0 b0 t0 hH hf.1 hf.2
+    have hwb0 : wfChange b0 = true := by
+      simp only [wfChanges, List.all_cons, Bool.and_eq_true] at hwf; exact hwf.1
+    have hallwf := seatFromD_wf thr hthr (distsOf b0 rest) 0 b0 hH hwb0 hf.1 hf.2
+      (fun p hp => by
+        have := c10_distsOf_snd_mem rest b0 p hp
+        simp only [wfChanges, List.all_cons, Bool.and_eq_true, List.all_eq_true] at hwf
+        exact hwf.2 p.2 this)
+    rw [← hout_eq] at hallwf hseq
+    have hwfo : wfChanges out = true := by
+      simp only [wfChanges, List.all_eq_true]; exact fun x hx => (hallwf x hx).1
+    have hso : sortedSnaps out = true := by rw [hseq]; exact hsorted
+    have h0o : firstAtZero out = true := by rw [hseq]; simp [firstAtZero, hhm, hhb]
+    have hgco : gridCompatible g.toList out = true := seated_gridCompatible hg.zero_mem out hallwf
+    have hmo : metronomeOk out = true := seated_metronomeOk out (fun x hx => (hallwf x hx).2)
+    refine ⟨out, hout, hseat, hwfo, hso, h0o, fromBcSnapNoReseat_eq t0 out hwfo hso h0o, ?_, ?_⟩
+    · intro hq
+      obtain ⟨tm, h1, h2'⟩ := offsets_correct g hg t0 out hwfo hso h0o hgco hmo σ qs hσ hq
+      rw [fromBcSnapNoReseat_eq t0 out hwfo hso h0o] at h1
+      rw [← Except.ok.inj h1] at h2'
+      exact h2'
+    · rw [rs_isort_sorted _ hs, hsortfix] at hint; exact hint
+
+/-- **`TimingMap.reseat()` as the driver runs it** (`C11.tmReseat`): on the stored form of a list that is in C10's
+domain (so the positions are re-derived exactly) and in C11's `Dom`, it returns the re-derived positions `cs` and
+the stored form of the reseated list, on which `offsets` is the integration of the reseated list. -/
+theorem tmReseat_offsets (thr : Rat) (hthr : 0 ≤ thr) (t0 : Rat) (cs : List BcSnap) (hd : Dom thr cs)
+    (hwf : wfChanges cs = true) (hgc : gridCompatible (grid defaultMaxDiv) cs = true) (hm : metronomeOk cs = true)
+    (σ : List Nat) (qs : List Snap) (hσ : SortsAsc σ qs) :
+    ∃ out, reseat cs thr = .ok out ∧ C11.tmReseat thr (tmOf t0 cs) = .ok (cs, tmOf t0 out) ∧
+      ((∀ q ∈ qs, queryOk out q = true) →
+        offsetsWith defaultGrid σ (tmOf t0 out) qs = .ok (qs.map (timeAt t0 out))) := by
+  have hgd : GridOK defaultGrid := gridOK_grid (by decide)
+  obtain ⟨out, hout, hseat, hwfo, hso, h0o, hfrom, hoff, _⟩ :=
+    offsets_after_reseat thr hthr defaultGrid hgd t0 cs hd hwf σ qs hσ
+  refine ⟨out, hout, ?_, hoff⟩
+  have hs := hd.1
+  have hf := hd.2.2.1
+  cases cs with
+  | nil => simp [firstZeroB] at hf
+  | cons b0 rest =>
+    have h0 : firstAtZero (b0 :: rest) = true := by simpa [firstAtZero, firstZeroB] using hf
+    have hb := bcsOfBco_rederive hgd t0 (b0 :: rest) hwf hs h0 (by simpa [defaultGrid] using hgc) hm
+    simp only [firstZeroB, Bool.and_eq_true, decide_eq_true_eq] at hf
+    have hnz : ¬ (b0.snap.measure ≠ 0 ∨ b0.snap.beat ≠ 0) := by simp [hf.1, hf.2]
+    have hhead : ((tmOf t0 (b0 :: rest)).headD default).offset = t0 := rfl
+    unfold C11.tmReseat
+    rw [hb]
+    simp only [bind, Except.bind, hhead]
+    unfold C11.fromBcSnapThr
+    rw [rs_isort_sorted _ hs]
+    simp only [hnz, if_false]
+    by_cases hany : (b0 :: rest).any (fun b => b.snap.beat ≠ 0) = true
+    · simp only [hany, if_true, hout, bind, Except.bind, hfrom]
+    · have hseated : seatedB (b0 :: rest) = true := by
+        simp only [seatedB, List.all_eq_true, decide_eq_true_eq]
+        intro x hx
+        by_contra hne
+        exact hany (List.any_eq_true.mpr ⟨x, hx, by simpa using hne⟩)
+      have hid := reseat_id_of_seated thr hthr (b0 :: rest) hd hseated
+      rw [hout] at hid
+      have : out = b0 :: rest := Except.ok.inj hid
+      subst this
+      simp only [hany, Bool.false_eq_true, if_false, hfrom]
+
+/-- non-vacuity of `offsets_after_reseat` / `tmReseat_offsets`: a list in both domains that really is reseated
+(branch 1 stretch + insert, branch 3), and what the model computes on it -/
+example :
+    let cs : List BcSnap := [⟨60, 4, ⟨0, 0, some 4⟩⟩, ⟨120, 4, ⟨4, 4 / 10000, some 4⟩⟩, ⟨90, 3, ⟨5, 5 / 2, some 3⟩⟩]
+    let qs : List Snap := [⟨7, 1, some 3⟩, ⟨0, 0, none⟩, ⟨4, 0, some 4⟩]
+    Dom (1 / 1000) cs ∧ wfChanges cs = true ∧ seatedB cs = false ∧
+      ((reseat cs (1 / 1000)).toOption.map fun out =>
+        (qs.all (queryOk out), (offsets (grid 4).toArray (tmOf 0 out) qs).toOption == some (qs.map (timeAt 0 out))))
+        = some (true, true) := by
+  refine ⟨by unfold Dom; decide +kernel, by decide +kernel, by decide +kernel, by decide +kernel⟩
 
 /-! ### the snapper, for the grid the code builds (`grid N`, every N ≥ 1) -/
 
